@@ -40,7 +40,7 @@ ASSUMPTIONS = [
     "belongs to one device; a flipper's EOS switch differs from its button) - otherwise virtual.py's overwrite "
     "assertion is the expected outcome; the 'handover' histories share keys between two flippers but never ask for "
     "both to be enabled at once (outside the theorems' wf hypothesis, inside the model's executable domain)",
-    "game suite: observations are taken after the machine has run 50 ms without input (zero-duration transients "
+    "game suite: all instants on the 1/8 s grid; observations are taken after the machine has run 125 ms without input (zero-duration transients "
     "inside one event cascade are not observed)",
     "use_eos implies an eos_switch; platform supports every rule kind used (delayed pulse stubbed on virtual)",
     "ops happen on whole seconds and every configured duration has a distinct non-zero 125 ms residue, so no two "
@@ -811,7 +811,7 @@ def gen_game(rng, tier, i):
     for _ in range(rng.randint(6, 32)):
         r = rng.random()
         if r < 0.26:
-            ops.append(["Advance", rng.choice([0.1, 0.25, 0.5, 1, 1, 2, 4, 6, 12])])
+            ops.append(["Advance", rng.choice([0.125, 0.25, 0.5, 1, 1, 2, 4, 6, 12])])
         elif r < 0.36:
             ops.append(["Tilt"])
         elif r < 0.46:
@@ -880,6 +880,11 @@ def run_game(case):
             return hold
         for ev in ("ball_starting", "ball_ending"):
             m.events.add_handler(ev, mkhold(ev), priority=-100)
+        # all instants on the 1/8 s grid: Tilt._tilt_done re-arms its delay with the float remainder of the settle
+        # time; off the grid that remainder can be ~1e-13 ms and the virtual clock never advances (test-clock livelock)
+        rig.advance(0.999)
+        if rig.now() != 1.0:
+            return {"boot_error": "clock not on the grid: %r" % rig.now(), "steps": []}
         m.switch_controller.process_switch("s_ball_switch1", 1)
         m.switch_controller.process_switch("s_ball_switch2", 1)
         rig.advance(2)
@@ -927,7 +932,7 @@ def run_game(case):
                     m.flippers[op[1]].sw_flip()
                 elif k == "Hit":
                     rig.hit_and_release_switch(op[1])
-                rig.advance(0.05)         # let the game coroutine and the event queue run dry
+                rig.advance(0.125)        # let the game coroutine and the event queue run dry (1/8 s grid)
             except Exception as e:    # noqa
                 exc = "%s: %s" % (type(e).__name__, str(e)[:200])
             if rig.exception() is not None and exc is None:
